@@ -238,6 +238,8 @@ def dropped_input(text, toks, ends):
         char_to_byte.append(acc)
 
     def start_byte(line, col):
+        if line < 1 or line > len(line_starts):
+            return None
         if col == 0:
             ci = line_starts[line - 1] - 1     # the newline character itself
         else:
